@@ -87,7 +87,7 @@ Definition nf_stage (s : stage) (gain_target pin_db nch slot_width : T) : option
   let pad := nmax (st_gain_min s - gain_target) nzero in
   let gt := gain_target + pad in
   let dg := nmax (st_gain_flatmax s - gt) nzero in
-  let pin50 := pin_db - lin2db nch + lin2db (dec 50 9 / slot_width) in
+  let pin50 := pin_db - lin2db nch + lin2db (dec 5 10 / slot_width) in
   let nf_avg :=
     match st_model s with
     | NFVariable nf1 nf2 dp =>
@@ -147,7 +147,7 @@ Definition estimate_nf_model (gain_min gain_max nf_min nf_max : T) : res (T * T 
         let g1a_max' := lin2db (db2lin nf2c / (db2lin nf_min - db2lin nf1)) in
         let delta_p' := gain_max - g1a_max' in
         let g1a_min' := gain_min - (gain_max - gain_min) - delta_p' in
-        if (#1 <? delta_p') && (delta_p' <? #11) then fin nf2c delta_p' g1a_min' g1a_max'
+        if (none <? delta_p') && (delta_p' <? #11) then fin nf2c delta_p' g1a_min' g1a_max'
         else Err "EquipmentConfigError:delta_p".
 
 (* the branch of estimate_nf_model taken when nf1 + 0.3 < nf2 < nf1 + 2 (no clipping): closed form of the solve *)
@@ -158,6 +158,12 @@ Definition nf_solve (gain_min gain_max nf_min nf_max : T) : T * T * T :=
   let nf2 := lin2db ((db2lin nf_min - db2lin nf_max) / (none / db2lin g1a_max - none / db2lin g1a_min)) in
   let nf1 := lin2db (db2lin nf_min - db2lin nf2 / db2lin g1a_max) in
   (nf1, nf2, delta_p).
+
+(* ------------------------------------------------------------------ dual stage limits (json_io._update_dual_stage) *)
+(* the output stage delivers the power; the flat gains add up; a dual stage whose gain_min is below its preamp's is refused *)
+Definition dual_p_max (pre_p_max boost_p_max : T) : T := boost_p_max.
+Definition dual_gain_flatmax (pre_gain_flatmax boost_gain_flatmax : T) : T := boost_gain_flatmax + pre_gain_flatmax.
+Definition dual_rejected (gain_min pre_gain_min : T) : bool := gain_min <? pre_gain_min.
 
 (* ------------------------------------------------------------------ the amplifier *)
 Record amp := mkAmp {
